@@ -23,6 +23,19 @@ static DATA: &[u8] = b"payload";
 
 type BoxFut = Pin<Box<dyn Future<Output = std::io::Result<usize>> + Send>>;
 
+/// A buffer whose `parts` panics: the fill closure of its submission unwinds in the middle of
+/// `Submissions::add` (slot reset, nothing filled). Nothing may reach the kernel for it.
+struct FaultyBuf;
+unsafe impl a10::io::Buf for FaultyBuf {
+    unsafe fn parts(&self) -> (*const u8, u32) {
+        panic!("faulty buffer")
+    }
+}
+
+fn is_faulty(p: u64) -> bool {
+    p >= 1000
+}
+
 fn payload_fd(p: u64) -> i32 {
     1_000_000 + p as i32
 }
@@ -35,7 +48,7 @@ pub fn one_case(r: &mut Rng, silent: &Arc<Mutex<Option<String>>>) -> Case {
     let mut next = 1u64;
     for _ in 0..n_threads {
         let k = r.range(1, if len >= 2 { 3 } else { 2 });
-        progs.push((0..k).map(|_| { next += 1; next }).collect());
+        progs.push((0..k).map(|_| { next += 1; if r.chance(1, 6) { 1000 + next } else { next } }).collect());
     }
     // Optionally pre-fill the queue (single threaded, before the race) so that it is nearly full.
     let prefill = r.below(len as u64 + 1) as usize;
@@ -54,7 +67,7 @@ pub fn one_case(r: &mut Rng, silent: &Arc<Mutex<Option<String>>>) -> Case {
         let fd = Box::new(ManuallyDrop::new(unsafe { a10::AsyncFd::from_raw_fd(payload_fd(p), sq.clone()) }));
         let fd_ref: &'static a10::AsyncFd = unsafe { &*(&**fd as *const a10::AsyncFd) };
         all_fds.push(fd);
-        Box::pin(fd_ref.write(DATA))
+        if is_faulty(p) { Box::pin(fd_ref.write(FaultyBuf)) } else { Box::pin(fd_ref.write(DATA)) }
     };
     let mut kept: Vec<BoxFut> = Vec::new();
     // Pre-fill from this (unmanaged) thread: program of a virtual thread that already finished.
@@ -66,17 +79,25 @@ pub fn one_case(r: &mut Rng, silent: &Arc<Mutex<Option<String>>>) -> Case {
         kept.push(f);
         pre.push(next);
     }
-    let futs: Vec<Vec<BoxFut>> = progs.iter().map(|ps| ps.iter().map(|p| mk(*p, &mut all_fds)).collect()).collect();
+    let futs: Vec<Vec<(u64, BoxFut)>> = progs.iter().map(|ps| ps.iter().map(|p| (*p, mk(*p, &mut all_fds))).collect()).collect();
+    let panicked_shared: Arc<Mutex<Vec<u64>>> = Arc::new(Mutex::new(Vec::new()));
     let done: Arc<Mutex<Vec<BoxFut>>> = Arc::new(Mutex::new(Vec::new()));
     let mut threads: Vec<Box<dyn FnOnce() + Send>> = Vec::new();
     for fs in futs {
         let done = done.clone();
         let waker = wakes.waker(1);
+        let panicked_shared = panicked_shared.clone();
         threads.push(Box::new(move || {
             let mut mine = Vec::new();
-            for mut f in fs {
-                let _ = poll_once(f.as_mut(), &waker);
-                mine.push(f);
+            for (payload, mut f) in fs {
+                // A faulty buffer panics inside the poll; the future is unusable afterwards.
+                match std::panic::catch_unwind(std::panic::AssertUnwindSafe(|| poll_once(f.as_mut(), &waker))) {
+                    Ok(_) => mine.push(f),
+                    Err(_) => {
+                        panicked_shared.lock().unwrap().push(payload);
+                        std::mem::forget(f)
+                    }
+                }
             }
             done.lock().unwrap().extend(mine);
         }));
@@ -185,21 +206,28 @@ pub fn one_case(r: &mut Rng, silent: &Arc<Mutex<Option<String>>>) -> Case {
             }
         }
     }
+    let mut panicked: Vec<i128> = panicked_shared.lock().unwrap().iter().map(|p| *p as i128).collect();
     for p in &started {
-        if !seen.contains(&(*p as i128)) {
+        if !seen.contains(&(*p as i128)) && !panicked.contains(&(*p as i128)) {
             parked.push(*p as i128);
         }
     }
     let _ = adds_done;
     parked.sort_unstable();
     obs.extend(parked.iter().copied());
+    panicked.sort_unstable();
+    obs.push(-5);
+    obs.extend(panicked.iter().copied());
 
     // ---- oracle (independent): exactly once, unmodified, no overrun ------------------------------------
     if oracle.is_none() {
         let mut all: Vec<i128> = seen.clone();
         all.sort_unstable();
         let dup = all.windows(2).any(|w| w[0] == w[1]);
-        if dup {
+        let faulty_seen: Vec<i128> = seen.iter().copied().filter(|p| *p >= 1000).collect();
+        if !faulty_seen.is_empty() {
+            oracle = Some(format!("the kernel sees entries {:?} whose fill panicked half way (partially written submissions)", faulty_seen));
+        } else if dup {
             oracle = Some(format!("the kernel sees a submission twice: consumed {:?}, pending {:?}", consumed, pending));
         } else if seen.iter().any(|p| *p < 0 || !started.contains(&(*p as u64))) {
             oracle = Some(format!("the kernel sees an entry that is no accepted submission (torn or stale): consumed {:?}, pending {:?}", consumed, pending));
